@@ -28,3 +28,20 @@ def live(body, scope=None):
             continue
         out.append(s)
     return out
+
+
+def norm_guards(guards):
+    """[(test expr, polarity)] -> [(source of the un-negated test, truth)]:
+    'not X' under polarity p becomes (X, not p)."""
+    out = []
+    for test, pol in guards:
+        while isinstance(test, ast.UnaryOp) and isinstance(test.op, ast.Not):
+            test = test.operand
+            pol = not pol
+        out.append((ast.unparse(test), pol))
+    return out
+
+
+def guard_says(guards, text, truth):
+    """Is ``text`` required to have truth value ``truth`` by the guards?"""
+    return (text, truth) in norm_guards(guards)
